@@ -87,9 +87,14 @@ def monitor(pid, year, base, assign, r, asked):
     elif pid == 'C04':
         errs, closure = monitors.c04(fl, base.requested, r)
         add(errs)
+        if not assign and r.exc is None:
+            # the interactive route must produce the same (closure-checked) solution
+            add(_cli_prompted(year, base, r))
+            cnt['solves'] += 1
         if closure:
             cnt['closure_lines'] = len(closure)
     elif pid == 'C05':
+        add(monitors.stored_equals_supplied(r))
         c0 = r.canon()
         order0 = tuple(a.line for a in r.log)
         for kind, rr in _variants(year, base, assign, r, (ALL_SCHEDS + ['file', 'file-reversed']) if not assign
@@ -137,6 +142,7 @@ def monitor(pid, year, base, assign, r, asked):
         add(monitors.c12_store(r))
     elif pid == 'C13':
         add(monitors.c13(r, {}))
+        add(monitors.stored_equals_supplied(r))
     elif pid == 'C02':
         from hv import c02oracle
         errs, st = c02oracle.check_solution(year, r.solution, inputs=r.final_inputs,
